@@ -424,6 +424,23 @@ func ipamRun(c *Ctx, focus string) {
 		default:
 			op = fmt.Sprintf("ip.trim %s %s", g.str(), recStr(rec))
 		}
+		if focus == "C02" && len(rec) > 0 && i%8 == 7 {
+			// cloud drift: what a full synchronisation finds for one interface
+			var cur, rem []string
+			for _, x := range rec[0].ips {
+				if x.id >= dwV6Base {
+					continue
+				}
+				cur = append(cur, fmt.Sprintf("%d:%s:%s:%s:%s", x.id, x.st, orDash(x.pod), orDash(x.uid), b01(x.primary)))
+				if r.Chance(80) { // still in the cloud, possibly reported as not available
+					rem = append(rem, fmt.Sprintf("%d:%s:-:-:%s", x.id, Pick(r, []string{"v", "v", "v", "d"}), b01(x.primary)))
+				}
+			}
+			for k := r.Intn(3); k > 0; k-- { // addresses only the cloud knows
+				rem = append(rem, fmt.Sprintf("%d:%s:-:-:0", 9000+k, Pick(r, []string{"v", "d"})))
+			}
+			op = fmt.Sprintf("ip.merge %s %s", joinOrDash(rem), joinOrDash(cur))
+		}
 		out := ipamExecOne(c, focus, op)
 		c.Cases = append(c.Cases, Case{Lines: []Line{out}, Nontrivial: len(rec) > 0})
 	}
@@ -472,6 +489,64 @@ func ipamExecOne(c *Ctx, focus string, op string) Line {
 		}
 	}
 	switch f[0] {
+	case "ip.merge":
+		// the full synchronisation's merge of what the cloud reports for one interface into the record (mergeIPMap)
+		if len(f) != 3 {
+			return Line{op, "bad-op"}
+		}
+		parse := func(s string) map[string]*networkv1beta1.IP {
+			m := map[string]*networkv1beta1.IP{}
+			if s == "-" {
+				return m
+			}
+			for _, xt := range strings.Split(s, ",") {
+				g := strings.Split(xt, ":")
+				id, _ := strconv.Atoi(g[0])
+				ip := &networkv1beta1.IP{IP: ipStr4(id), Primary: g[4] == "1", PodID: undash(g[2]), PodUID: undash(g[3]), Status: networkv1beta1.IPStatusValid}
+				if g[1] == "d" {
+					ip.Status = networkv1beta1.IPStatusDeleting
+				}
+				m[ip.IP] = ip
+			}
+			return m
+		}
+		remote, current := parse(f[1]), parse(f[2])
+		before := map[string]networkv1beta1.IP{}
+		for k, v := range current {
+			before[k] = *v
+		}
+		ipamnode.VerifMergeIPMap(remote, current)
+		type kv struct {
+			id int
+			s  string
+		}
+		var out []kv
+		for k, v := range current {
+			var a, b, hi, lo int
+			fmt.Sscanf(k, "%d.%d.%d.%d", &a, &b, &hi, &lo)
+			id := hi*100 + lo
+			st := "v"
+			if v.Status == networkv1beta1.IPStatusDeleting {
+				st = "d"
+			}
+			out = append(out, kv{id, fmt.Sprintf("%d:%s:%s:%s:%s", id, st, orDash(v.PodID), orDash(v.PodUID), b01(v.Primary))})
+			// property-level: an address bound to a pod that the cloud still reports stays bound and valid
+			if o, ok := before[k]; ok && o.PodID != "" && o.Status == networkv1beta1.IPStatusValid && (v.PodID != o.PodID || v.Status != networkv1beta1.IPStatusValid) {
+				viol("C02/merge/bound-address-changed", fmt.Sprintf("the full synchronisation turned %s, bound to %s and valid, into status=%s pod=%q", k, o.PodID, v.Status, v.PodID))
+			}
+		}
+		for k, o := range before {
+			if _, still := current[k]; !still && remote[k] != nil && o.PodID != "" {
+				viol("C02/merge/bound-address-dropped", fmt.Sprintf("the full synchronisation dropped %s, bound to %s, although the cloud reports it", k, o.PodID))
+			}
+		}
+		sort.Slice(out, func(i, j int) bool { return out[i].id < out[j].id })
+		var ss []string
+		for _, o := range out {
+			ss = append(ss, o.s)
+		}
+		c.Count("merge")
+		return Line{op, joinOrDash(ss)}
 	case "ip.asg":
 		pods, pre := parsePods(f[2]), parseRec(f[3])
 		cr := toCR(pre)
